@@ -78,7 +78,7 @@ _F64_SPECIAL = [0, 1 << 63, 0x7FF0000000000000, 0xFFF0000000000000, 0x7FF8000000
 _STR_ALPHA = ["a", "Z", "0", " ", "'", "/", "é", "ß", "中", "\U0001F600", "́", "\\", "\""]
 
 
-def value(ty, p, k, seed=0, width=None):
+def value(ty, p, k, seed=0, width=None, extra=0):
     """Concrete k-th value of channel p of type ty: little-endian bytes (str for String).
     The first values walk the type's extremes, the rest are pseudo-random."""
     kind = TYPES[ty][2]
@@ -87,10 +87,11 @@ def value(ty, p, k, seed=0, width=None):
     if kind in ("int", "uint"):
         bits = 8 * sz
         if kind == "int":
-            ext = [-(1 << (bits - 1)), (1 << (bits - 1)) - 1, 0, -1, 1]
+            # byte-swap-symmetric values (0, -1) come late so that short channels still expose byte-order slips
+            ext = [-(1 << (bits - 1)), (1 << (bits - 1)) - 1, 1, -2, 258 % (1 << (bits - 1)), 0, -1]
             v = ext[k] if k < len(ext) else r.randrange(-(1 << (bits - 1)), 1 << (bits - 1))
         else:
-            ext = [(1 << bits) - 1, 0, 1 << (bits - 1), 1]
+            ext = [1 << (bits - 1), 1, (1 << bits) - 2, 258 % (1 << bits), (1 << bits) - 1, 0]
             v = ext[k] if k < len(ext) else r.randrange(0, 1 << bits)
         return v.to_bytes(sz, "little", signed=(kind == "int"))
     if kind == "bool":
@@ -116,9 +117,9 @@ def value(ty, p, k, seed=0, width=None):
         # same total size (the raw data index declares it once); width = position of the value inside its chunk.
         w = 0 if width is None else width
         rw = _rng(seed, "w", p, w)
-        if rw.random() < 0.15:
+        if rw.random() < 0.15 and not extra:
             return ""
-        target = rw.randrange(0, 9)
+        target = rw.randrange(0, 9) + extra       # extra: size variant (same count, different byte size)
         body = ""
         while len(body.encode("utf-8")) < target:
             c = r.choice(_STR_ALPHA)
@@ -236,7 +237,7 @@ def encode(fd, seed=0, typemap=None):
                             strs = []
                             for i in range(o["n"]):
                                 kk = counters.get(o["p"], 0)
-                                v = ("%03d" % (kk % 1000)) if fd.get("strfix") else value(t, o["p"], kk, seed, width=i)
+                                v = ("%03d" % (kk % 1000)) if fd.get("strfix") else value(t, o["p"], kk, seed, width=i, extra=o.get("sv", 0))
                                 counters[o["p"]] = kk + 1
                                 enc.values.setdefault(o["p"], []).append(v)
                                 strs.append(v.encode("utf-8"))
